@@ -6,6 +6,8 @@ V = os.path.dirname(os.path.dirname(os.path.abspath(__file__)))
 
 # (key regex, what fails, confirmation reference)
 KNOWN = [
+ (r"^C08\.R1\|cascette_formats::patch_index::header::<PatchIndexHeader>::build\|usize\ as\ u16\|extra_data/self\.len$", "PatchIndexHeader { extra_data: 65536 bytes }.build() (public struct, returns Vec<u8>): 65555 bytes written with extra_header_len = 1, parse gives extra_data of length 0 (65535 bytes: 'attempt to add with overflow' in the debug profile); PatchIndexBuilder always passes empty extra_data; build() cannot report an error without a public signature change", "findings/T12/site8"),
+ (r"^C08\.R1\|cascette_formats::tvfs::vfs_table::<VfsTable>::build\|usize\ as\ u8\|entries/entry/iter\.len$", "VfsTable::build (public, returns Vec<u8>) with an entry of 256 spans: 2315 bytes written that do not parse ('VFS table truncated at offset 1903'); TvfsBuilder writes one span per file and cannot reach it; build() cannot report an error without a public signature change", "findings/T12/site5"),
  (r"^C01\.R1\|.*add_encrypted_data\|caller-chosen-index$", "add_encrypted_data(.., block_index=1) for the chunk at position 0: build/parse/decompress_with_keys all Ok, decode yields 65 garbage bytes instead of the 64 input bytes or an error (an in-tree unit test passes index 1 on purpose, so no fix without editing tests)", "findings/A2"),
  (r"^C03\.R1\|root\|layout-predicate$", "RootBuilder V2 with 20 files / 0 named (all 840 combinations of total 16..=99 x named 0..=9): detect() says V2, the header is read as V3V4, parse is Ok and no inserted FileDataID resolves; the format is ambiguous there, a repair is a design decision", "findings/A7"),
  (r"^C06\.R3\|.*LruManager>::checkpoint_to_disk.*\|write$", "crash image with a valid generation 1 next to a half-written generation 2: run_cycle returns Err(invalid LRU file) with 0 entries, generation 1 is never tried (needs temp+fsync+rename AND fallback to the older generation)", "findings/C4"),
@@ -50,6 +52,11 @@ KNOWN = [
 ]
 
 FIXED = [
+ ("C08", "1f3fbd6", "C08.R1 patch archive block_count as u16: 65536 blocks announced as 0, parser returned an empty archive (findings/T12/site4)"),
+ ("C08", "6d2aad2", "C08.R1 patch archive espec length as u8: a 256-byte ESpec built Ok, output did not parse (findings/T12/site3)"),
+ ("C08", "31607ad", "C08.R1 (neighbouring defect found while triaging site 9) TVFS name fragment of 255 bytes writes the length byte 0xFF = NodeValue marker: any path component of >= 255 bytes made the built file unparseable (findings/T12/site9)"),
+ ("C08", "06a78b6", "C08.R1 patch archive num_patches as u8: an entry with 256 patches built Ok and parsed back to 0 entries (findings/T12/site2)"),
+ ("C08", "09bba77", "C08.R1 EncodingBuilder key_count as u8: 256 encoding keys for one content key built Ok and parsed back to 0 entries (257: 1 key) (findings/T12/site1)"),
  ("C08", "828f954", "C08.R2 RootBuilder::remove_file left block.header.num_records stale: add 120 files, remove one, build -> the builder's own output fails to parse ('failed to fill whole buffer') (findings/T13)"),
  ("C17", "bf5ed03", "C17.R1 public evict_tail lost the slot: capacity 1, touch a; evict_tail(); touch b returned false (findings/T11; noted by a round-6 seeding agent, confirmed and fixed)"),
  ("C17", "5171568", "C06.R10 checkpoint deleted the file it had just written: checkpoint(gen 1); bump_generation; load_from_disk(1); checkpoint -> generation 1 file removed, next load fails (findings/T11)"),
